@@ -349,6 +349,13 @@ func (e *SpecEnv) call(n *ECall) SV {
 			return term(fmt.Sprintf("(select (MDom %s) %s)", e.H, v.T), SUnk)
 		}
 		e.fail("dom of %s", v.String())
+	case "vals":
+		// vals(m): value array of map m
+		v := arg(0)
+		if v.K == KMap {
+			return term(fmt.Sprintf("(select (MVal %s) %s)", e.H, v.T), SUnk)
+		}
+		e.fail("vals of %s", v.String())
 	case "mapid":
 		v := arg(0)
 		if v.K == KMap {
